@@ -122,6 +122,54 @@ class Ob:
         s.add(z3.Not(self.goal))
         return fix_smt2(s.to_smt2())
 
+    def smt2_sliced(self, depth=2, maxfreq=60):
+        """cone of influence of the goal: only the assumptions that share an uninterpreted symbol with the goal, directly or
+        through `depth` rounds, ignoring symbols that occur in more than `maxfreq` assumptions (fewer premises: 'unsat' still
+        proves the obligation; any other answer proves nothing)"""
+        if len(self.assumptions) < 150:
+            return None
+
+        def syms(t):
+            out, todo, seen = set(), [t], set()
+            while todo:
+                x = todo.pop()
+                i = x.get_id()
+                if i in seen:
+                    continue
+                seen.add(i)
+                if z3.is_quantifier(x):
+                    todo.append(x.body())
+                    continue
+                if z3.is_app(x):
+                    if x.decl().kind() == z3.Z3_OP_UNINTERPRETED:
+                        out.add(x.decl().name())
+                    todo.extend(x.children())
+            return out
+        S = [syms(a) for a in self.assumptions]
+        freq = {}
+        for s_ in S:
+            for n in s_:
+                freq[n] = freq.get(n, 0) + 1
+        cur = syms(self.goal)
+        chosen = set()
+        for _ in range(depth):
+            new = set()
+            for i, s_ in enumerate(S):
+                if i in chosen:
+                    continue
+                rel = {n for n in s_ if freq[n] <= maxfreq}
+                if rel & cur:
+                    chosen.add(i)
+                    new |= rel
+            cur |= new
+        if not chosen or len(chosen) > 0.9 * len(self.assumptions):
+            return None
+        sl = z3.Solver()
+        for i in sorted(chosen):
+            sl.add(self.assumptions[i])
+        sl.add(z3.Not(self.goal))
+        return fix_smt2(sl.to_smt2())
+
     def smt2(self, hints=False):
         s = z3.Solver()
         if hints:
@@ -159,6 +207,11 @@ class Ob:
             self.meta['strs'] = dict(STR.rev)
         if self.must == 'valid':
             fz['relaxed'] = self.smt2_relaxed()
+            if self.kind in ('INV', 'PRE', 'POST', 'VAR') and self.goal is not None:
+                try:
+                    fz['sliced'] = self.smt2_sliced()
+                except Exception:
+                    fz['sliced'] = None
         else:
             fz['hinted'] = self.smt2(hints=True)
             fz['qf'] = self.smt2_qf()
